@@ -312,6 +312,7 @@ def gen_case(rng, quick, default_regressor=False):
         case.pop("preload", None)
         case.pop("nonfinite", None)
         case.pop("stale_costs", None)
+        case.pop("eval_stats_off", None)       # (the wrapper is re-drawn below and may be the scikit one)
         # the constructors' own regressors (GaussianProcessRegressor / KRG): few, distinct points, rare retraining
         case["wrapper"] = rng.choice(["scikit", "smt"])
         case["n"] = n = 1
